@@ -180,6 +180,9 @@ func (e *Executor) RunTask(ctx context.Context, call *Call) error {
 				fingerprint.WithLogger(e.Logger),
 			)
 			if err != nil {
+				if err2 := e.statusOnError(t); err2 != nil {
+					e.Logger.VerboseErrf(logger.Yellow, "task: error cleaning status on error: %v\n", err2)
+				}
 				return err
 			}
 
@@ -193,11 +196,16 @@ func (e *Executor) RunTask(ctx context.Context, call *Call) error {
 
 		for _, p := range t.Prompt {
 			if p != "" && !e.Dry {
-				if err := e.Logger.Prompt(logger.Yellow, p, "n", "y", "yes"); errors.Is(err, logger.ErrNoTerminal) {
-					return &errors.TaskCancelledNoTerminalError{TaskName: call.Task}
-				} else if errors.Is(err, logger.ErrPromptCancelled) {
-					return &errors.TaskCancelledByUserError{TaskName: call.Task}
-				} else if err != nil {
+				if err := e.Logger.Prompt(logger.Yellow, p, "n", "y", "yes"); err != nil {
+					// the fingerprint may already have been updated: forget it, the commands did not run
+					if err2 := e.statusOnError(t); err2 != nil {
+						e.Logger.VerboseErrf(logger.Yellow, "task: error cleaning status on error: %v\n", err2)
+					}
+					if errors.Is(err, logger.ErrNoTerminal) {
+						return &errors.TaskCancelledNoTerminalError{TaskName: call.Task}
+					} else if errors.Is(err, logger.ErrPromptCancelled) {
+						return &errors.TaskCancelledByUserError{TaskName: call.Task}
+					}
 					return err
 				}
 			}
